@@ -100,7 +100,7 @@ func truncate(s *slip.Scope, f slip.Object, args slip.List, depth int) slip.Valu
 		)
 		_ = zq.Quo((*big.Float)(tn), (*big.Float)(div.(*slip.LongFloat)))
 		bi, _ := zq.Int(nil)
-		q = (*slip.Bignum)(bi)
+		q = slip.IntegerFromBig(bi)
 		_ = zq.SetInt(bi)
 		_ = zp.Mul(&zq, (*big.Float)(div.(*slip.LongFloat)))
 		r = (*slip.LongFloat)(zr.Sub((*big.Float)(tn), &zp))
@@ -110,8 +110,8 @@ func truncate(s *slip.Scope, f slip.Object, args slip.List, depth int) slip.Valu
 			zq big.Int
 		)
 		_, _ = zq.QuoRem((*big.Int)(tn), (*big.Int)(div.(*slip.Bignum)), &zr)
-		q = (*slip.Bignum)(&zq)
-		r = (*slip.Bignum)(&zr)
+		q = slip.IntegerFromBig(&zq)
+		r = slip.IntegerFromBig(&zr)
 
 	case *slip.Ratio:
 		var (
@@ -126,7 +126,7 @@ func truncate(s *slip.Scope, f slip.Object, args slip.List, depth int) slip.Valu
 		_ = zb.SetInt(&bi)
 		_ = zp.Mul(&zb, (*big.Rat)(div.(*slip.Ratio)))
 		_ = zr.Sub((*big.Rat)(tn), &zp)
-		q = (*slip.Bignum)(&bi)
+		q = slip.IntegerFromBig(&bi)
 		r = (*slip.Ratio)(&zr)
 	case slip.Complex:
 		slip.TypePanic(s, depth, "number", tn, "real")
